@@ -126,6 +126,24 @@ class Timeout(Exception):
     pass
 
 
+class watchdog_paused:
+    """While the machinery itself computes (digests around a hooked call), a pending time_limit must not fire: the
+    limit bounds the repository's code, and a firing inside the machinery would turn wall-clock time into data."""
+
+    def __enter__(self):
+        import signal
+
+        self._left = signal.setitimer(signal.ITIMER_REAL, 0)[0]
+        return self
+
+    def __exit__(self, *a):
+        import signal
+
+        if self._left > 0:
+            signal.setitimer(signal.ITIMER_REAL, self._left)
+        return False
+
+
 class time_limit:
     """Bound one call by wall-clock time (main thread only).  Firing is an
     observation ('inconclusive for this call'), never a verdict."""
